@@ -38,7 +38,8 @@ RULE = ('Path components over printable ASCII incl. space and \' " $ # % & ( '
         'excluded and counted.  Non-trivial: the name has a character '
         'outside [A-Za-z0-9_.-]; distinct = (backend, role, set of special '
         'characters).  The sweep task enumerates ab<c>c for every printable '
-        'ASCII character c in every role and backend.')
+        'ASCII character c, and <c>ab for the characters ~ - = + @ # . : % ! '
+        '& ^ , in every role and backend.')
 LEVEL_TEXT = ('Generated-input search with a behavioural oracle and run-time '
               'calibration: whenever a hand-written build file can make the '
               'backend tool handle the name, the build file written by '
@@ -453,6 +454,8 @@ def key_for(backend, role, step, n):
         ch = 'leading-dash'
     if n.startswith('=') and backend == 'ninja':
         ch = 'leading-equals'
+    if n.startswith('~') and sp == ['~']:
+        ch = 'leading-tilde'
     return '{}/{}/{}'.format(backend, role, ch)
 
 
@@ -469,7 +472,11 @@ def check_name(rec, backend, role, n, case):
         return
     sp = specials(n)
     # steer around open known findings (count exclusions)
-    if any(rec.is_open('{}/{}/{}'.format(backend, role, c)) for c in sp) or \
+    if any(rec.is_open('{}/{}/{}'.format(backend, role, c))
+           for c in sp if not (c == '~' and n.startswith('~') and
+                               n.count('~') == 1)) or \
+            (n.startswith('~') and rec.is_open(
+                '{}/{}/leading-tilde'.format(backend, role))) or \
             (n.startswith('-') and rec.is_open('{}/{}/leading-dash'.format(
                 backend, role))) or \
             (n.startswith('=') and rec.is_open('{}/{}/leading-equals'.format(
@@ -552,6 +559,21 @@ def sweep_cases():
 CORE_NAMES = ['a b', 'a$b', 'a#b', 'ab:c', 'a%b', 'a b/c d']
 
 
+LEADING = '~-=+@#.:%!&^,'
+
+
+def leading_cases():
+    """Characters that are special at the beginning of a name."""
+    out = []
+    for backend in ('make', 'ninja'):
+        for role in ROLES:
+            for c in LEADING:
+                if valid_name(c + 'ab'):
+                    out.append({'backend': backend, 'role': role,
+                                'name': c + 'ab'})
+    return out
+
+
 def core_cases():
     out = []
     for backend in ('make', 'ninja'):
@@ -566,7 +588,7 @@ def core_cases():
 
 def _run_sweep(rec, seed, budget, shard, nshards, slice_):
     """Exhaustive single-character sweep (collects every violation)."""
-    allc = sweep_cases()
+    allc = sweep_cases() + leading_cases()
     if slice_ is not None:
         # the quick tier always covers the characters met most in practice
         sel = [c for k, c in enumerate(allc)
